@@ -440,3 +440,74 @@ impl Core {
         }
     }
 }
+
+#[cfg(feature = "hotstuff_verif")]
+pub enum VerifEvent {
+    Message(ConsensusMessage),
+    Loopback(Block),
+    Timer,
+    Boot,
+}
+
+#[cfg(feature = "hotstuff_verif")]
+impl Core {
+    #[allow(clippy::too_many_arguments)]
+    pub fn verif_new(
+        name: PublicKey,
+        committee: Committee,
+        signature_service: SignatureService,
+        store: Store,
+        leader_elector: LeaderElector,
+        mempool_driver: MempoolDriver,
+        synchronizer: Synchronizer,
+        timeout_delay: u64,
+        rx_message: Receiver<ConsensusMessage>,
+        rx_loopback: Receiver<Block>,
+        tx_proposer: Sender<ProposerMessage>,
+        tx_commit: Sender<Block>,
+    ) -> Self {
+        Self {
+            name,
+            committee: committee.clone(),
+            signature_service,
+            store,
+            leader_elector,
+            mempool_driver,
+            synchronizer,
+            rx_message,
+            rx_loopback,
+            tx_proposer,
+            tx_commit,
+            round: 1,
+            last_voted_round: 0,
+            last_committed_round: 0,
+            high_qc: QC::genesis(),
+            timer: Timer::new(timeout_delay),
+            aggregator: Aggregator::new(committee),
+            network: SimpleSender::new(),
+        }
+    }
+
+    /// Run exactly one iteration of the main loop's dispatch on the given event.
+    pub async fn verif_event(&mut self, event: VerifEvent) -> ConsensusResult<()> {
+        match event {
+            VerifEvent::Message(ConsensusMessage::Propose(block)) => self.handle_proposal(&block).await,
+            VerifEvent::Message(ConsensusMessage::Vote(vote)) => self.handle_vote(&vote).await,
+            VerifEvent::Message(ConsensusMessage::Timeout(timeout)) => self.handle_timeout(&timeout).await,
+            VerifEvent::Message(ConsensusMessage::TC(tc)) => self.handle_tc(tc).await,
+            VerifEvent::Message(_) => panic!("Unexpected protocol message"),
+            VerifEvent::Loopback(block) => self.process_block(&block).await,
+            VerifEvent::Timer => self.local_timeout_round().await,
+            VerifEvent::Boot => {
+                if self.name == self.leader_elector.get_leader(self.round) {
+                    self.generate_proposal(None).await;
+                }
+                Ok(())
+            }
+        }
+    }
+
+    pub fn verif_state(&self) -> (Round, Round, Round, QC) {
+        (self.round, self.last_voted_round, self.last_committed_round, self.high_qc.clone())
+    }
+}
